@@ -29,4 +29,38 @@ func init() {
 		},
 		Outside: []string{"member counts above the bound", "encoding/binary internals"},
 	})
+	geomMerge := []string{
+		ModPath + ".pointOnSegment", ModPath + ".rayIntersectsSegment", "(" + ModPath + ".WithinStatus).invert",
+		"(*" + ModPath + ".Bounds).Overlaps", "(" + ModPath + ".Point).Equals",
+	}
+	reg(&Property{
+		ID: "C02", Pkgs: []string{"."}, Level: "model_checking",
+		Rule: "one evaluation = one explored path (ring/vertex counts, bbox-filter and on-edge outcomes) with every coordinate a free grid value; non-trivial = path ends with the classification assertion discharged",
+		Opts: []HarnessOpt{{Prefix: "VH_C02_", Mode: "G", Merge: geomMerge, IfConv: true, MaxUnwind: 16}},
+		Bounds: map[string]string{
+			"grid":   "half-integers k/2, k a signed 3-bit (quick) / 4-bit (thorough) integer",
+			"shapes": "<=2 rings x <=4 vertices (5 thorough, single ring), 2 polygons; closed, unclosed, degenerate, self-intersecting, any winding (nothing assumed)",
+		},
+		Assumptions: []string{
+			"G mode: +,-,* on grid values are exact in float64 (width bookkeeping); a rounded quotient is only compared (Lemma Q, distinct grid rationals stay ordered under RNE); Nextafter adds an infinitesimal",
+			"comparisons where the nudge may be absorbed by rounding and the exact parts tie are excluded (reported in engine_notes)",
+		},
+		Outside: []string{"arbitrary floating-point polygons with a clear margin (FP64 division over all doubles is not decidable in reach)", "larger coordinates / more vertices"},
+	})
+	simMerge := []string{
+		ModPath + ".similar", ModPath + ".pointSimilar", ModPath + ".pointsSimilar", ModPath + ".pointssSimilar",
+		"(" + ModPath + ".LineString).Similar", "(" + ModPath + ".Point).Similar", "(" + ModPath + ".MultiPoint).Similar",
+		ModPath + ".nextPt",
+	}
+	reg(&Property{
+		ID: "C15", Pkgs: []string{"."}, Level: "model_checking",
+		Rule: "one evaluation = one explored path (pair of shapes, matching decisions) with all coordinates and the tolerance free grid values; non-trivial = path ends with its assertion discharged",
+		Opts: []HarnessOpt{{Prefix: "VH_C15_", Mode: "G", Merge: simMerge, IfConv: true, MaxUnwind: 24}},
+		Bounds: map[string]string{
+			"grid":   "half-integers with 4-6 bit numerators; tolerance a positive grid value",
+			"shapes": "<=2-3 members x <=2-4 vertices; all permutations of members, all rotations of closed rings",
+		},
+		Assumptions: []string{"G mode: a-b exact on the grid; |a-b| and |b-a| are the same term (bit-exact IEEE identity)"},
+		Outside:     []string{"arbitrary doubles (the FP64 subtraction is exact only on the grid)", "larger member counts"},
+	})
 }
